@@ -38,10 +38,11 @@ type stEv struct {
 }
 
 type stScn struct {
-	Nodes []stNode `json:"nodes"`
-	Order []stEv   `json:"order"`
-	Impl  []stEv   `json:"impl"`  // the order when overflow != visible creates a stacking context (the implementation's choice)
-	Clips [][]int  `json:"clips"` // per node: the boxes whose overflow clip must be in force while it is painted
+	Nodes     []stNode `json:"nodes"`
+	Order     []stEv   `json:"order"`
+	Impl      []stEv   `json:"impl"`      // the order when overflow != visible creates a stacking context (the implementation's choice)
+	Clips     [][]int  `json:"clips"`     // per node: the boxes whose overflow clip must be in force while it is painted
+	TextClips [][]int  `json:"textclips"` // the same for the text of the node (its own clip included)
 }
 
 type c16Rect struct{ x0, y0, x1, y1 float64 }
@@ -67,7 +68,9 @@ func (r c16Rect) near(o c16Rect) bool {
 	return math.Abs(r.x0-o.x0) < 0.6 && math.Abs(r.y0-o.y0) < 0.6 && math.Abs(r.x1-o.x1) < 0.6 && math.Abs(r.y1-o.y1) < 0.6
 }
 
-func c16Color(i int) (int, int, int) { return (10 + 20*i) % 256, ((250-20*i)%256 + 256) % 256, (37 * i) % 256 }
+func c16Color(i int) (int, int, int) {
+	return (10 + 20*i) % 256, ((250-20*i)%256 + 256) % 256, (37 * i) % 256
+}
 
 func c16HTML(s *stScn) string {
 	var b strings.Builder
@@ -87,6 +90,8 @@ func c16HTML(s *stScn) string {
 			st += "display:inline-block;padding:2px;"
 		case "float":
 			st += "display:block;float:left;padding:2px;"
+		case "flex":
+			st += "display:flex;padding:2px;"
 		}
 		switch n.Pos {
 		case "relative":
@@ -161,8 +166,8 @@ func c16Main(args []string) int {
 		}
 		// projection of the backend calls to paint events: a fill is a Paint following SetColorRgba(non-stroke) of a box colour
 		var got []stEv
-		var gotSign []int        // orientation (sign of the determinant) of the transformation in force at each event
-		sign := map[int][]int{}  // canvas id -> stack of orientations
+		var gotSign []int       // orientation (sign of the determinant) of the transformation in force at each event
+		sign := map[int][]int{} // canvas id -> stack of orientations
 		baseSign := map[int]int{}
 		curSign := func(c int) int {
 			if st := sign[c]; len(st) > 0 {
@@ -299,7 +304,11 @@ func c16Main(args []string) int {
 				first = append(first, e)
 				// overflow: every clipping ancestor's padding box is among the clips in force
 				if e.N >= 1 && e.N <= len(s.Clips) {
-					for _, a := range s.Clips[e.N-1] {
+					cl := s.Clips[e.N-1]
+					if e.E == "text" && e.N <= len(s.TextClips) {
+						cl = s.TextClips[e.N-1]
+					}
+					for _, a := range cl {
 						out.Count("clip-brackets-checked")
 						ok := false
 						for _, cl := range gotClips[k] {
